@@ -68,6 +68,35 @@ def _cycles(edges):
     return out
 
 
+def _only_logged(fn, sub):
+    """the dictionary display / keyed store `sub` belongs to a value that is used by logging calls only"""
+    from vlib.model import is_logging_call
+    parents = {}
+    for p_ in ast.walk(fn):
+        for c_ in ast.iter_child_nodes(p_):
+            parents[id(c_)] = p_
+
+    def inside_logging(x):
+        while x is not None:
+            if isinstance(x, ast.Call) and is_logging_call(x):
+                return True
+            x = parents.get(id(x))
+        return False
+    if inside_logging(sub):
+        return True
+    name = None
+    par = parents.get(id(sub))
+    if isinstance(sub, ast.Dict) and isinstance(par, ast.Assign) and len(par.targets) == 1 and isinstance(par.targets[0], ast.Name):
+        name = par.targets[0].id
+    elif isinstance(sub, ast.Subscript) and isinstance(sub.value, ast.Name):
+        name = sub.value.id
+    if name is None:
+        return False
+    loads = [n for n in ast.walk(fn) if isinstance(n, ast.Name) and n.id == name and isinstance(n.ctx, ast.Load)]
+    uses = [n for n in loads if not (isinstance(parents.get(id(n)), ast.Subscript) and isinstance(parents[id(n)].ctx, ast.Store))]
+    return bool(uses) and all(inside_logging(n) for n in uses)
+
+
 def check(ck):
     prog = ck.prog
     from vlib import narrow
@@ -87,6 +116,13 @@ def check(ck):
                     n_resp += 1
                     plain = all(a[0] == "call" and prov.show(a[1]).endswith("Fault") and len(a[2]) <= 2 and
                                 all(k in ("code", "message", "config") for (k, _v) in a[3]) for a in prov.alts(t))
+                    if not plain:
+                        # a `data` member made of strings / numbers / displays of them is as harmless (common.json_safe_expr)
+                        from rules import common as _cm2
+                        sites_ = [s_ for s_ in _cm2.fault_sites(prog) if s_.fi.fq == fi.fq]
+                        plain = all(a[0] == "call" and prov.show(a[1]).endswith("Fault") and len(a[2]) <= 2 and
+                                    all(k in ("code", "message", "config", "data") for (k, _v) in a[3]) for a in prov.alts(t)) and \
+                            bool(sites_) and all(s_.arg("data", 4)[2] is None or _cm2.json_safe_expr(prog, *s_.arg("data", 4)) for s_ in sites_)
                     ck.require(plain, "C02.1b", "%s: %s.response()" % (q.fn(fi), dump(c.func.value)),
                                "Fault built from code, message, config only: its envelope is always serialisable",
                                "fault.response() is applied to %s: an id or data member that the JSON backend may reject "
@@ -191,6 +227,8 @@ def check(ck):
             elif isinstance(sub, ast.Subscript) and isinstance(sub.ctx, ast.Store) and isinstance(sub.slice, ast.Constant):
                 keys = [sub.slice.value]
             bad = [k for k in keys if k in ("result", "error", "jsonrpc", "code", "message")]
+            if bad and _only_logged(fi.node, sub):
+                continue        # a dictionary that only ever reaches a logging call (`extra=`, a lazy argument) is no part of a reply
             if bad:
                 n3 += 1
                 ck.bad("C02.3", "%s: dictionary with key(s) %s" % (q.fn(fi), bad),
@@ -305,6 +343,9 @@ def check(ck):
         code_e = site.expr("code", 0)
         msg_e = site.expr("message", 1)
         code = site.code()
+        if common.carried_by_exception(site):
+            raise AnalysisError("the Fault of %s takes its code from the exception it handles (`%s`): error codes carried by exception "
+                                "objects are not modelled" % (q.fn(fi), dump(site.expr("code", 0))))
         ck.require(code is not None, "C02.5", "%s: Fault #%d code" % (q.fn(fi), n5), "integer literal %s" % code,
                    "error code is not an integer literal: %s" % (dump(code_e) if code_e is not None else "default"), q.loc(fi, n))
         ck.require(msg_e is not None and (c05.is_string_expr(msg_e) or c05.is_string_term(site.origin("message", 1))), "C02.5", "%s: Fault #%d message" % (q.fn(fi), n5),
